@@ -3,8 +3,9 @@
 
    [enc_spec v a] (Spec/ThetaLayout.v) writes the abstract compact sketch [a] as serVer 1, serVer 2
    (empty / exact / estimating), serVer 3 (empty, single item with or without the SINGLE_ITEM flag,
-   exact, estimating -- also with zero entries --, ordered or unordered) or serVer 4 (every
-   entry_bits width); [expressible v a] says the variant can express the state; [abs_okb a] that it
+   exact, estimating -- also with zero entries --, ordered or unordered; and, variant V3L, the same
+   states written with MORE preamble longs than necessary: one entry with a count field (preLongs 2),
+   exact mode with theta = 2^63-1 stored (preLongs 3)) or serVer 4 (every entry_bits width); [expressible v a] says the variant can express the state; [abs_okb a] that it
    is a theta sketch.  The reader is the REPAIRED code: serVer 2 exact images are no longer decoded
    as empty (D11, /repo d004b42). *)
 From DS Require Import Base.Prelude Base.BitExp Model.Theta Model.ThetaCodec Spec.ThetaLayout.
@@ -37,5 +38,7 @@ Example c13_theta_example :
   expressible V2 a2 = true /\ abs_okb a2 = true /\ abs_okb a3 = true /\
   c_deserialize 12345 (enc_spec V2 a2) = Ok (conc a2) /\ ce_empty (conc a2) = false /\
   c_deserialize 12345 (enc_spec (V3 false) a3) = Ok (conc a3) /\
-  c_deserialize 12345 (enc_spec (V3 true) a1) = Ok (conc a1) /\ nth 5 (enc_spec (V3 true) a1) 0 = 58.
+  c_deserialize 12345 (enc_spec (V3 true) a1) = Ok (conc a1) /\ nth 5 (enc_spec (V3 true) a1) 0 = 58 /\
+  expressible (V3L 2) a1 = true /\ c_deserialize 12345 (enc_spec (V3L 2) a1) = Ok (conc a1) /\
+  expressible (V3L 3) a2 = true /\ c_deserialize 12345 (enc_spec (V3L 3) a2) = Ok (conc a2).
 Proof. vm_compute. repeat split; reflexivity. Qed.
